@@ -174,7 +174,7 @@ Ev(t, env, fuel) ==
          ELSE LET l == Lookup(env.rules, env.dflt, t.name)
               IN IF l.found THEN Ev(l.tree, env, fuel - 1) ELSE Res(FALSE, "", <<>>)
     [] t.k = "http" ->
-         IF ~SubstOK(t.parts, env.target) THEN Res(FALSE, "KeyError", <<>>)
+         IF ~SubstOK(t.parts, env.target) THEN Res(FALSE, "", <<>>)     \* missing key: deny, nothing is sent
          ELSE LET url == Subst(t.parts, env.target)
                   req == << <<"http", t.scheme, url, env.cur>> >>
               IN IF env.http.fault # "none" THEN Res(FALSE, "fault", req)
@@ -206,7 +206,7 @@ Den(t, env, fuel) ==
     [] t.k = "rule" -> IF fuel = 0 THEN FALSE
                        ELSE LET l == Lookup(env.rules, env.dflt, t.name)
                             IN l.found /\ Den(l.tree, env, fuel - 1)
-    [] t.k = "http" -> env.http.fault = "none" /\ HttpBodyAllows(env.http.body)
+    [] t.k = "http" -> SubstOK(t.parts, env.target) /\ env.http.fault = "none" /\ HttpBodyAllows(env.http.body)
 
 Fuel == 12
 
